@@ -7,17 +7,21 @@ from common import LEAN_DIR, VERIF
 
 # property -> bridge modules ; function names are only for messages
 BRIDGES = {
-    "C01": ["Barril.Bridge.Posc"],
+    "C01": ["Barril.Bridge.Posc", "Barril.Bridge.PoscTable"],
     "C03": ["Barril.Bridge.Alg"],
     "C04": ["Barril.Bridge.Alg"],
+    "C11": ["Barril.Bridge.Fixed"],
     "C12": ["Barril.Bridge.Valid"],
     "C18": ["Barril.Bridge.Frac"],
 }
 
 GENERATED_FROM = {
     "Barril.Bridge.Posc": ["barril/units/posc.py:MakeCustomaryToBase", "barril/units/posc.py:MakeBaseToCustomary"],
+    "Barril.Bridge.PoscTable": ["barril/units/posc.py:MakeCustomaryToBase", "barril/units/posc.py:MakeBaseToCustomary"],
     "Barril.Bridge.Alg": ["barril/units/unit_database.py:UnitDatabase._ConvertMatchingExp"],
     "Barril.Bridge.Valid": ["barril/units/_quantity.py:Quantity.CheckValue"],
+    "Barril.Bridge.Fixed": ["barril/units/_fixedarray.py:FixedArray.CheckValues",
+                            "barril/units/_fixedarray.py:FixedArray._InternalCreateWithQuantity"],
     "Barril.Bridge.Frac": ["barril/basic/fraction/_fraction.py:Fraction.__old_cmp__"],
 }
 
